@@ -5,7 +5,7 @@ Codes (assigned by NAME here, so reordering the Rust enum does not change a mean
   mode   Chainable=0  Lenient=1  SemiStrict=2  Strict=3          (the strictness order)
   kind   0 = not undefined, 1 = Undefined(Default), 2 = Undefined(Silent)
   flag   0 = false, 1 = true                                   (`parent_was_undefined`)
-  outcome 0 = Err(UndefinedError), 1 = Ok(..)
+  outcome 0 = Err(UndefinedError), 1 = Ok(..)   (Environment::format: 1 = formatter called, 2 = Ok(()) without it)
 
 A helper is emitted as its ordered `match` rows `(modes, kinds-or-flags, outcome)`; the Lean model
 (`MJ/Model/Undef.lean`) interprets the rows first-match-wins like Rust does.  Anything this
@@ -277,9 +277,16 @@ def _env_format(repo):
     rows = []
     for pat, expr in match_arms(body):
         e = re.sub(r"\s+", "", expr)
-        outcome = 0 if e == ERR else 1
-        if outcome == 1 and "write_escaped" not in e and "self.formatter" not in e:
-            raise KeyError(f"format arm `{expr[:50]}`")
+        # outcome 0 = Err(UndefinedError), 1 = the value is handed to the formatter (default or custom),
+        # 2 = Ok(()) without consulting the formatter (nothing is written)
+        if e == ERR:
+            outcome = 0
+        elif e == "Ok(())":
+            outcome = 2
+        elif re.fullmatch(r"ifself\.formatter_is_default\{write_escaped\(out,state\.auto_escape\(\),value\)\}else\{\(self\.formatter\)\(out,state,value\)\}", e):
+            outcome = 1
+        else:
+            raise KeyError(f"format arm `{expr[:60]}`")
         for alt in split_top(pat, "|"):
             alt = alt.strip()
             if alt == "_":
